@@ -331,6 +331,21 @@ fn scenarios_c10(tier: Tier) -> Vec<Scenario> {
             }
         }
     }
+    // (round 14, after C10l) a run that is cut short: abort while some chains are done and others
+    // are not - what the prefix trace holds for chain i must still be chain i's rows, at
+    // position i
+    for preset in [Preset::DiagNuts, Preset::DiagMclmc] {
+        for &(ch, co) in tier.pick(&[(2usize, 2usize)][..], &[(2usize, 1usize), (2, 2), (3, 2)][..]) {
+            for sc in [vec![], vec![Op::Progress]] {
+                let mut s = base(
+                    format!("{preset:?}/c{ch}k{co}/{}/Abort/seed42", script_name(&sc)),
+                    preset, ch, co, sc.clone(), Terminal::Abort, tier.pick(1, 2),
+                );
+                s.seed = 42;
+                out.push(s);
+            }
+        }
+    }
     // the default seed of every preset
     for preset in [Preset::DiagNuts, Preset::DiagMclmc] {
         for &(ch, co) in &[(1usize, 1usize), (2, 1), (2, 2)] {
